@@ -79,7 +79,7 @@ func runSolver(ctx context.Context, solver string, file string, timeoutS int, se
 // Solve discharges the obligations in parallel.
 func Solve(obs []*Oblig, opts SolveOpts) []*Result {
 	if opts.Workers <= 0 {
-		opts.Workers = 16
+		opts.Workers = 12
 	}
 	os.MkdirAll(opts.OutDir, 0o755)
 	results := make([]*Result, len(obs))
@@ -136,26 +136,27 @@ func solveOne(o *Oblig, opts SolveOpts) *Result {
 		}
 		return r
 	}
-	a := runSolver(context.Background(), "z3-new", file, opts.TimeoutS, opts.Seed)
+	// quick attempt with the main solver, then race all three
+	a := runSolver(context.Background(), "z3-new", file, 2, opts.Seed)
 	r.Answers = append(r.Answers, a)
 	if a.Result == "unsat" {
 		r.Status, r.Solver, r.Secs = "proved", a.Solver, a.Secs
 		return r
 	}
-	// race the other solvers
 	ctx, cancel := context.WithCancel(context.Background())
 	defer cancel()
-	ch := make(chan Answer, 3)
-	others := []string{"z3", "cvc5"}
-	for _, s := range others {
+	ch := make(chan Answer, 4)
+	racers := []string{"z3", "cvc5"}
+	for _, s := range racers {
 		go func(s string) { ch <- runSolver(ctx, s, file, opts.TimeoutS, opts.Seed) }(s)
 	}
+	n := len(racers)
 	if a.Result != "sat" {
-		// retry z3-new with another seed and the long budget
-		others = append(others, "z3-new")
-		go func() { ch <- runSolver(ctx, "z3-new", file, opts.TimeoutS*3, opts.Seed+7919) }()
+		n += 2
+		go func() { ch <- runSolver(ctx, "z3-new", file, opts.TimeoutS, opts.Seed) }()
+		go func() { ch <- runSolver(ctx, "z3-new", file, opts.TimeoutS, opts.Seed+7919) }()
 	}
-	for range others {
+	for i := 0; i < n; i++ {
 		b := <-ch
 		r.Answers = append(r.Answers, b)
 		if b.Result == "unsat" {
